@@ -171,6 +171,7 @@ func (w *World) Rows(ts []refsem.Tuple) []*relationtuple.RelationTuple {
 type CheckOut struct {
 	X      *vsched.Execution
 	Res    checkgroup.Result
+	Res2   checkgroup.Result // RunOpt.Again
 	Cut    bool
 	Calls  int
 	Faults int
@@ -197,6 +198,8 @@ type RunOpt struct {
 	HangAfterCancel bool
 	Visible    bool
 	PageSize   int // page size of the in-memory store's listings (0 = 100 as in SQL)
+	Again      bool // after the (possibly cancelled) check returned and its context was released, the same check is
+	// issued once more with a fresh context that nobody cancels (CheckOut.Res2)
 }
 
 // RunCheck executes one check of q on rows under the scheduler with the given choice prefix.
@@ -221,6 +224,11 @@ func (w *World) RunCheck(rows []*relationtuple.RelationTuple, q *relationtuple.R
 		}
 		out.Res = w.Eng.CheckRelationTuple(ctx, q, ro.ReqDepth)
 		cancel() // release the request context
+		if ro.Again {
+			ctx2, cancel2 := vsched.WithCancel(context.Background())
+			out.Res2 = w.Eng.CheckRelationTuple(ctx2, q, ro.ReqDepth)
+			cancel2()
+		}
 	})
 	out.Cut = w.Cut.cut()
 	out.Calls = w.Store.Calls
